@@ -70,7 +70,9 @@ type c05Scope struct {
 }
 
 // c05Run runs all programs of depth <= depth over alpha against ONE root.
-func c05Run(ctx *SeqCtx, opsPrefix []string, rootPrefix string, shards uint, alpha []progOp, depth int, cached bool, only [][]int) (string, string, []string) {
+// reverse: the programs are run longest first, so that an identity is first created by its longest derivation
+// (what the registry keeps for an identity is decided by whoever derives it first).
+func c05Run(ctx *SeqCtx, opsPrefix []string, rootPrefix string, shards uint, alpha []progOp, depth int, cached bool, only [][]int, order ...int) (string, string, []string) {
 	rec := &Recorder{NoPoints: true}
 	o := scopeOpts(rec, cached, false)
 	o.Prefix = rootPrefix
@@ -82,6 +84,7 @@ func c05Run(ctx *SeqCtx, opsPrefix []string, rootPrefix string, shards uint, alp
 	ambiguous := map[string]bool{}     // identities that share a registry key with another identity
 	ambigPtr := map[tally.Scope]bool{} // scopes shared by two identities (known key ambiguity): derivations through them are not judged
 	byRKey := map[string]string{}
+	reached := map[tally.Scope][]string{} // diagnostics: every program that ended at a scope object
 	var fail func() (string, string, []string)
 	progNames := func(p []int) []string {
 		out := append(append([]string{}, opsPrefix...), fmt.Sprintf("prefix=%q", rootPrefix), fmt.Sprintf("shards=%d", shards), fmt.Sprintf("cached=%v", cached))
@@ -90,12 +93,37 @@ func c05Run(ctx *SeqCtx, opsPrefix []string, rootPrefix string, shards uint, alp
 		}
 		return out
 	}
-	var firstKnown func()
-	_ = firstKnown
+	// identities that share their public key string with a different identity (the listed finding F05a): known
+	// from the reference model alone, before anything runs. A program that derives THROUGH such an identity is
+	// not executed at all: the model cannot say which tags the shared scope has, and whatever such a program
+	// creates or records would land on scopes of identities that are judged.
+	preAmb := map[string]bool{}
+	{
+		byKey := map[string]string{}
+		enumSeqs(len(alpha), depth, func(seq []int) bool {
+			prog := make([]progOp, len(seq))
+			for i, k := range seq {
+				prog[i] = alpha[k]
+			}
+			p, tg := refIdentity(cfg, prog)
+			id, k := identKey(p, tg), tally.KeyForPrefixedStringMap(p, tg)
+			if o, ok := byKey[k]; ok && o != id {
+				preAmb[id], preAmb[o] = true, true
+			} else if !ok {
+				byKey[k] = id
+			}
+			return true
+		})
+	}
 	visit := func(seq []int) bool {
 		prog := make([]progOp, len(seq))
 		for i, k := range seq {
 			prog[i] = alpha[k]
+		}
+		for i := 1; i < len(prog); i++ {
+			if p, tg := refIdentity(cfg, prog[:i]); preAmb[identKey(p, tg)] {
+				return true
+			}
 		}
 		s := tally.Scope(root)
 		tainted := false
@@ -117,6 +145,7 @@ func c05Run(ctx *SeqCtx, opsPrefix []string, rootPrefix string, shards uint, alp
 		}
 		prefix, tags := refIdentity(cfg, prog)
 		id := identKey(prefix, tags)
+		reached[s] = append(reached[s], fmt.Sprintf("%v(tainted=%v)", prog, tainted))
 		if tainted {
 			// derived through a scope that two identities share because of the
 			// (listed) key ambiguity: the model cannot say what its tags are
@@ -196,6 +225,30 @@ func c05Run(ctx *SeqCtx, opsPrefix []string, rootPrefix string, shards uint, alp
 				break
 			}
 		}
+	} else if len(order) > 0 && order[0] > 0 {
+		var all [][]int
+		enumSeqs(len(alpha), depth, func(seq []int) bool {
+			all = append(all, append([]int{}, seq...))
+			return true
+		})
+		if order[0] >= 2 {
+			// a fixed pseudo-random order (linear congruential generator seeded with the order number): the
+			// visiting loop below runs backwards over it
+			x := uint64(order[0]) * 0x9E3779B97F4A7C15
+			for i := len(all) - 1; i > 0; i-- {
+				x = x*6364136223846793005 + 1442695040888963407
+				j := int((x >> 33) % uint64(i+1))
+				all[i], all[j] = all[j], all[i]
+			}
+		}
+		for i := len(all) - 1; i >= 0; i-- {
+			if ctx != nil && ctx.Expired() {
+				break
+			}
+			if !visit(all[i]) {
+				break
+			}
+		}
 	} else {
 		enumSeqs(len(alpha), depth, func(seq []int) bool {
 			if ctx != nil && ctx.Expired() {
@@ -224,7 +277,7 @@ func c05Run(ctx *SeqCtx, opsPrefix []string, rootPrefix string, shards uint, alp
 		}
 		k := sc.name + tagString(sc.tags)
 		if got[k] != count[id] {
-			return "delivered-under-wrong-identity", fmt.Sprintf("root prefix %q shards %d: identity %s recorded %d, delivered %d under %s", rootPrefix, shards, id, count[id], got[k], k), progNames(sc.prog)
+			return "delivered-under-wrong-identity", fmt.Sprintf("root prefix %q shards %d: identity %s recorded %d, delivered %d under %s; programs that ended at its scope object: %v", rootPrefix, shards, id, count[id], got[k], k, reached[sc.scope]), progNames(sc.prog)
 		}
 	}
 	return "", "", nil
@@ -250,6 +303,7 @@ func c05Jobs(tier string) []*SeqJob {
 		alpha  string
 		depth  int
 		cached bool
+		rev    int // order of the programs: 0 shortest first, 1 longest first, >= 2 a fixed shuffle
 	}
 	var cfgs []cfg
 	shardSet := []uint{1, 2, 3, 64}
@@ -261,11 +315,13 @@ func c05Jobs(tier string) []*SeqJob {
 	}
 	for _, p := range prefixes {
 		for i, sh := range shardSet {
-			cfgs = append(cfgs, cfg{p, sh, "small", 2, i%2 == 0})
+			cfgs = append(cfgs, cfg{p, sh, "small", 2, i%2 == 0, i % 4})
 		}
-		cfgs = append(cfgs, cfg{p, 1, "full", 2, true}, cfg{p, 2, "small", 3, false})
+		cfgs = append(cfgs, cfg{p, 1, "full", 2, true, 0}, cfg{p, 2, "small", 3, false, 0},
+			cfg{p, 1, "full", 2, false, 1}, cfg{p, 2, "small", 3, true, 1},
+			cfg{p, 1, "full", 2, false, 2}, cfg{p, 1, "full", 2, true, 3}, cfg{p, 2, "small", 3, true, 4}, cfg{p, 1, "small", 3, false, 5})
 		if tier == "thorough" {
-			cfgs = append(cfgs, cfg{p, 3, "small", 4, true})
+			cfgs = append(cfgs, cfg{p, 3, "small", 4, true, 0}, cfg{p, 1, "small", 4, false, 1}, cfg{p, 1, "small", 4, false, 2}, cfg{p, 2, "full", 2, false, 6}, cfg{p, 1, "full", 2, true, 7})
 		}
 	}
 	alphaOf := func(n string) []progOp {
@@ -290,7 +346,7 @@ func c05Jobs(tier string) []*SeqJob {
 			c := c
 			var ops []string
 			cl, det := guard(func() (string, string) {
-				a, b, o := c05Run(ctx, []string{"alpha=" + c.alpha, fmt.Sprintf("depth=%d", c.depth)}, c.prefix, c.shards, alphaOf(c.alpha), c.depth, c.cached, nil)
+				a, b, o := c05Run(ctx, []string{"alpha=" + c.alpha, fmt.Sprintf("depth=%d", c.depth), fmt.Sprintf("order=%d", c.rev)}, c.prefix, c.shards, alphaOf(c.alpha), c.depth, c.cached, nil, c.rev)
 				ops = o
 				return a, b
 			})
@@ -312,13 +368,14 @@ func c05Jobs(tier string) []*SeqJob {
 		var c cfg
 		c.alpha = strings.TrimPrefix(ops[0], "alpha=")
 		fmt.Sscanf(ops[1], "depth=%d", &c.depth)
-		fmt.Sscanf(ops[2], "prefix=%q", &c.prefix)
-		fmt.Sscanf(ops[3], "shards=%d", &c.shards)
-		fmt.Sscanf(ops[4], "cached=%v", &c.cached)
+		fmt.Sscanf(ops[2], "order=%d", &c.rev)
+		fmt.Sscanf(ops[3], "prefix=%q", &c.prefix)
+		fmt.Sscanf(ops[4], "shards=%d", &c.shards)
+		fmt.Sscanf(ops[5], "cached=%v", &c.cached)
 		rctx := &SeqCtx{job: job, seen: map[string]struct{}{}}
 		rctx.st.Outcomes = map[string]int64{}
 		cl, det := guard(func() (string, string) {
-			a, b, _ := c05Run(rctx, nil, c.prefix, c.shards, alphaOf(c.alpha), c.depth, c.cached, nil)
+			a, b, _ := c05Run(rctx, nil, c.prefix, c.shards, alphaOf(c.alpha), c.depth, c.cached, nil, c.rev)
 			return a, b
 		})
 		if cl == "" && rctx.viol != nil {
@@ -412,4 +469,24 @@ func c05Jobs(tier string) []*SeqJob {
 		return "", ""
 	}
 	return []*SeqJob{job, kjob}
+}
+
+// c05Debug runs one explicit list of programs (indices into the full alphabet) on one root and prints the verdict.
+func c05Debug(args []string) {
+	alpha := c05Alphabet(2)
+	for i, a := range alpha {
+		fmt.Println(i, a)
+	}
+	var progs [][]int
+	for _, a := range args {
+		var p []int
+		for _, f := range strings.Split(a, ",") {
+			var k int
+			fmt.Sscan(f, &k)
+			p = append(p, k)
+		}
+		progs = append(progs, p)
+	}
+	cl, det, _ := c05Run(nil, nil, "", 1, alpha, 2, false, progs)
+	fmt.Println("verdict:", cl, det)
 }
